@@ -911,6 +911,31 @@ func (c *EvalCtx) evalCall(e *Expr) TVal {
 	case "dyntype":
 		v := c.eval(e.Args[0])
 		return c.mk("(i-typ "+v.T+")", sInt, ti)
+	case "hastype":
+		// hastype(x, "T"): the dynamic type of interface value x is exactly T
+		v := c.eval(e.Args[0])
+		if len(e.Args) == 2 && e.Args[1].Op == "str" {
+			if t := resolveType(c.pkg, e.Args[1].Name); t != nil {
+				return c.mk(fmt.Sprintf("(= (i-typ %s) %d)", v.T, w.TypeID(t)), sBool, tb)
+			}
+		}
+		c.errf("hastype: cannot resolve type")
+		return c.mk("false", sBool, tb)
+	case "unbox":
+		// unbox(x, "T"): the value held by interface x seen as a T (meaningful when hastype(x, "T"))
+		v := c.eval(e.Args[0])
+		if len(e.Args) == 2 && e.Args[1].Op == "str" {
+			if t := resolveType(c.pkg, e.Args[1].Name); t != nil {
+				switch t.Underlying().(type) {
+				case *types.Pointer, *types.Map, *types.Chan, *types.Signature:
+					return c.mk("(i-val "+v.T+")", w.SortOf(t), t)
+				}
+				_, ub := w.Box(t)
+				return c.mk("("+ub+" (i-val "+v.T+"))", w.SortOf(t), t)
+			}
+		}
+		c.errf("unbox: cannot resolve type")
+		return c.mk("0", sInt, ti)
 	case "closed":
 		v := c.eval(e.Args[0])
 		return c.mk(not(eq(sel(fr.heapCur(c.st, fr.chanHeap("ChanClosed")), v.T), "0")), sBool, tb)
